@@ -51,12 +51,13 @@ EXTENDS Integers, Sequences, FiniteSets, SequencesExt
 (*   op  < > = ! & |        (operator characters, end an atom)         *)
 (*   q   % ^                (quote prefixes)                           *)
 (*   t   ~                  (unquote prefix)                           *)
+(*   @                      (~@ is the unquote-splicing prefix)        *)
 (*   ,                      (separator token)                          *)
 (*   x   any other character (symbol characters # ? $ _ @, non-ASCII)  *)
 (* ------------------------------------------------------------------ *)
 BaseAlphabet == {"(", ")", "[", "]", "{", "}", "dq", "bs", "bt", "sq",
                  "a", "1", "-", ":", ".", "/", "*", ";", "sp", "nl"}
-ExtraAlphabet == {"+", "op", "q", "t", ",", "x"}
+ExtraAlphabet == {"+", "op", "q", "t", "@", ",", "x"}
 
 Openers == {"(", "[", "{"}
 Closers == {")", "]", "}"}
@@ -113,7 +114,7 @@ Code(s, c, DevStar) ==
       [] c = "a"  -> (* "- Inf" is one number: a word right after a lone sign leaves the count open *)
                      LET t == SetAt(s, CASE s.at \in {"none", "sym"} -> "sym" [] s.at = "dsym" -> "dsym" [] OTHER -> "odd") IN
                      IF s.lt = "minus" /\ s.at = "none" THEN Fz(t) ELSE t
-      [] c = "x"  -> SetAt(s, "odd")
+      [] c \in {"x", "@"} -> SetAt(s, "odd")
       [] c = "1"  -> SetAt(s, CASE s.at = "none" -> "int" [] s.at \in {"sym", "dsym", "int", "flt"} -> s.at [] OTHER -> "odd")
       (* a.b is a dotted symbol: a word, but a colon behind it is a token of its own *)
       [] c = "."  -> SetAt(s, CASE s.at \in {"sym", "dsym"} -> "dsym" [] s.at = "int" -> "flt" [] OTHER -> "odd")
@@ -169,7 +170,7 @@ Step(s, c, DevStar) ==
            Fz(Code(Item([s EXCEPT !.m = "code"]), c, DevStar))
       [] s.m = "tilde" ->
            (* ~@ is one prefix; otherwise the character after ~ starts the operand *)
-           IF c = "x" THEN [s EXCEPT !.m = "code", !.at = "odd", !.lt = "prefix"]
+           IF c = "@" THEN [s EXCEPT !.m = "code", !.lt = "prefix"]
            ELSE Code([s EXCEPT !.m = "code", !.lt = "prefix"], c, DevStar)
       [] OTHER -> Lose(s)
 
@@ -184,10 +185,11 @@ Run(text) == RunFrom(A0, text, FALSE)
 InOpenLiteral(s) == s.m \in {"str", "stresc", "bt", "bc", "bcstar"}
 Unfinished(s) == s.st # <<>> \/ InOpenLiteral(s)
 (* a last token that only the end of the text terminates *)
-Pending(s) == s.at # "none" \/ s.m \in {"op-", "op*", "op+", "opx", "slash", "colon"}
-(* an open character literal and a quote prefix without its operand are *)
-(* not in the property's list: left open                                 *)
-Undecided(s) == s.q = "lost" \/ s.m \in {"rune", "runeesc", "tilde"} \/ s.lt = "prefix"
+(* a quote prefix % ^ ~ ~@ whose operand has not begun: the prefix is the last token *)
+PrefixPending(s) == s.m = "tilde" \/ (s.lt = "prefix" /\ s.at = "none" /\ s.m \in {"code", "lc"})
+Pending(s) == s.at # "none" \/ s.m \in {"op-", "op*", "op+", "opx", "slash", "colon"} \/ PrefixPending(s)
+(* an open character literal is not in the property's list: left open   *)
+Undecided(s) == s.q = "lost" \/ s.m \in {"rune", "runeesc"}
 (* a: is one token; a/ are two *)
 PendingCount(s) == IF s.m = "colon" THEN 1
                    ELSE (IF s.at # "none" THEN 1 ELSE 0)
@@ -198,10 +200,20 @@ CountExact(s) == s.q = "exact" /\ ~Undecided(s) /\ ~Unfinished(s)
 
 (* The status a correct parser reports for a text whose run ends in s:   *)
 (* the SET of admissible statuses.                                        *)
+(* A text that ends in a quote prefix without operand has no bracket, string or comment  *)
+(* open, but reporting it as finished would lose its last token (the prefix): the parser *)
+(* may ask for the operand or reject the text, it may not report "done".                *)
 Statuses(s) ==
     IF Undecided(s) THEN {"done", "more", "err"}
+    ELSE IF PrefixPending(s) /\ ~Unfinished(s) THEN {"more", "err"}
     ELSE LET want == IF Unfinished(s) THEN "more" ELSE "done" IN
          IF s.q = "exact" THEN {want} ELSE {want, "err"}
+
+(* A hard error on an UNFINISHED prefix is a verdict about the text delivered so far:   *)
+(* inside an open construct the end of the input decides nothing, so every extension of *)
+(* the prefix must be rejected too (ParseTrace checks this against the recorded whole-  *)
+(* text results: a prefix of an acceptable text must ask for more input, not fail).     *)
+ErrorIsFinal(s) == Unfinished(s) /\ s.q # "lost" /\ ~(s.m \in {"rune", "runeesc"})
 
 (* ------------------------------------------------------------------ *)
 (* Part 2: the session state machine.                                  *)
